@@ -68,7 +68,7 @@ def recipes(rng):
         add(f, cplx(rng, 2, 6, 6), d)
     add(ftm.rft2, img(rng, 6, 6), d)
     add(fn.gaussian2d, 8, 2.0); add(fn.gaussian2d, (6, 8), (1.5, 2.5), cent=(2, 3))
-    add(pupil.circle, 3.2, 9); add(pupil.circle, 2, 8, circle_centre=(0.5, 1), origin="corner")
+    add(pupil.circle, 3.2, 9); add(pupil.circle, 2, 8, circle_centre=(0.5, 1), origin="corner"); add(pupil.circle, 2.5, 9, circle_centre=(0.5, -1.0), origin="middle")
     add(zk.zernIndex, 13); add(zk.zernike_noll, 7, 8); add(zk.zernike_nm, 3, -1, 8); add(zk.zernikeRadialFunc, 4, 2, img(rng, 5, 5))
     add(zk.zernikeArray, 6, 8); add(zk.zernikeArray, [2, 5, 9], 8, norm="rms"); add(zk.phaseFromZernikes, [0.5, -1.0, 2.0], 8); add(zk.makegammas, 3)
     add(kl.stf_kolmogorov, img(rng, 4)); add(kl.stf_vonKarman, img(rng, 4), 3.0); add(kl.stf_vonKarman_yao, img(rng, 4), 3.0)
